@@ -253,6 +253,18 @@ func cmdConc(args []string) {
 			nruns++
 		}
 		line["repeats_exact"] = ex
+		// ... and with the texts of the supplied variables padded with white space (whatever a run makes of them, the
+		// caller's map keeps them as they were)
+		if len(c.RawVars) > 0 {
+			padded := copyVars(c.RawVars)
+			for k, v := range padded {
+				padded[k] = " " + v + "\n"
+			}
+			orig := copyVars(padded)
+			runParsed(bg, p, padded, fresh(), c.FlagOvd)
+			nruns++
+			line["paddedVarsUnchanged"] = reflect.DeepEqual(padded, orig)
+		}
 		// ... and with two supplied variables unreadable at once (which one is reported must not depend on the
 		// iteration order of the caller's map)
 		if bad := twoBadVars(c); bad != nil {
